@@ -180,6 +180,10 @@ def run(ctx: Ctx, env):
             return hci.module, fn, [ObjV(vcls, {}, "self"), node], {}, hci.qual
 
         paths = interp.explore(setup)
+        from .common import check_shared_caches
+        check_shared_caches(ctx, paths, "R6.no-state-shared-between-visitors",
+                            "a lambda on another model (or a nested sub-visitor) is correlated with the wrong relationship",
+                            "Author: comments/any()  then  BlogPost: comments/any()", label)
         logic = Logic(ctx, exists_has_negated)
         seen_cases: Set[Tuple[str, bool]] = set()
         for p in paths:
